@@ -16,6 +16,7 @@ import (
 	"encoding/hex"
 	"encoding/json"
 	"flag"
+	"fmt"
 	"math/rand"
 	"os"
 	"strings"
@@ -303,6 +304,55 @@ func mutate(rng *rand.Rand, s string) string {
 	return string(b)
 }
 
+// ---------------------------------------------------------------- exhaustive scopes by checksum (mirror of Corr.fold_strings)
+var ckAlpha = []string{"a", "1", " ", "\"", "\\", "<", ">", "/", ",", ";", "(", "]"}
+
+const hm = uint64(1)<<61 - 1
+
+func mix(h, x uint64) uint64 { return (h*1000003 + x + 1) & hm }
+
+func hashCase(h uint64, input string) uint64 {
+	h = mix(h, 7)
+	for t := range lexer.New(input, 0) {
+		h = mix(h, uint64(t.Type)+1000)
+		for i := 0; i < len(t.Text); i++ {
+			h = mix(h, uint64(t.Text[i]))
+		}
+		h = mix(h, 999)
+	}
+	return mix(h, 1) // the channel was closed
+}
+
+func foldStrings(n int, prefix string, h uint64, count *int) uint64 {
+	h = hashCase(h, prefix)
+	*count++
+	if n == 0 {
+		return h
+	}
+	for _, a := range ckAlpha {
+		h = foldStrings(n-1, prefix+a, h, count)
+	}
+	return h
+}
+
+func checksums(spec string) {
+	out := json.NewEncoder(os.Stdout)
+	for _, item := range strings.Split(spec, ",") {
+		parts := strings.SplitN(item, ":", 2)
+		p, err := hex.DecodeString(parts[0])
+		if err != nil || len(parts) != 2 {
+			os.Exit(2)
+		}
+		d := 0
+		for _, c := range parts[1] {
+			d = d*10 + int(c-'0')
+		}
+		n := 0
+		h := foldStrings(d, string(p), 0, &n)
+		out.Encode(map[string]interface{}{"prefix": parts[0], "depth": d, "hash": fmt.Sprint(h), "count": n})
+	}
+}
+
 var corpus = []string{
 	"", " ", "\n", "select", "SELECT", "SeLeCt ?x from ?g where {?s ?p ?o};",
 	"filter latest(?p)", "filter latest (?p)", "FILTER latest (?p)", "filter latest", "filter l(", "filter (",
@@ -323,7 +373,12 @@ func main() {
 	exhp := flag.Int("exhaustp", 2, "same, after each context prefix")
 	only := flag.String("only", "", "comma separated list of groups to produce (default all)")
 	one := flag.String("one", "", "lex just this input (hex) and exit")
+	ck := flag.String("cksum", "", "checksum mode: comma separated list of prefixHex:depth; prints one JSON line per item")
 	flag.Parse()
+	if *ck != "" {
+		checksums(*ck)
+		return
+	}
 	w = bufio.NewWriterSize(os.Stdout, 1<<20)
 	defer w.Flush()
 	enc = json.NewEncoder(w)
